@@ -666,7 +666,7 @@ func onlyLeaves(b *ssa.BasicBlock) bool {
 
 var ruleNoInPlace = &Rule{
 	ID:    "R-NOINPLACE",
-	Doc:   "formatting is repeatable: no function of the formatter appends onto a reslice of a slice it was handed (in-place filtering rewrites the layout recorded by the parser, so a second Format of the same program prints something else)",
+	Doc:   "formatting is repeatable: no function of the formatter appends onto a reslice of a slice it was handed (in-place filtering rewrites the layout recorded by the parser, so a second Format of the same program prints something else); the fmt command (main.go) never appends onto a reslice of a buffer it was handed either (the members of a txtar archive share the input buffer)",
 	Floor: 1,
 	Run:   runNoInPlace,
 }
